@@ -231,7 +231,7 @@ class State:
 
 
 BASE_OPS = [["read", "array"], ["read", "frame"], ["arr", "ones"], ["empty"], ["rm", "all"], ["arr", "single"],
-            ["rm", "first"], ["arr", "hole"], ["arr", "zeros"]]
+            ["rm", "first"], ["arr", "hole"], ["arr", "zeros"], ["upd", "number"], ["upd", "move"]]
 
 
 def cl(*items):
@@ -316,6 +316,16 @@ class Model:
                 charge.remove_from_frame()
             else:
                 charge.remove_from_frame(id_list=list(ids))
+        elif name == "upd":
+            # in-place update of the existing clusters through the public API (as transport models do)
+            rows = frame_rows(charge.frame)
+            if rows:
+                labels = [r[0] for r in rows]
+                if op[1] == "number":
+                    charge.set_frame_values("number", [2.0 * r[1] for r in rows], id_list=labels)
+                else:       # move the first cluster to the centre of pixel (1, 2)
+                    charge.set_frame_values("position_ver", [1.5 * PV], id_list=labels[:1])
+                    charge.set_frame_values("position_hor", [2.5 * PH], id_list=labels[:1])
         else:
             raise KeyError(name)
         return None
@@ -414,6 +424,19 @@ class Model:
                 else:
                     acc_defined = False         # the statement does not define the report here; see twin check
                     self.counts["removals_to_empty_frame"] += 1
+
+        elif name == "upd":
+            if exc is not None:
+                bad("update-raised", f"set_frame_values raised {type(exc).__name__}: {exc}")
+            elif before.rows:
+                if op[1] == "number":
+                    want = [(r[0], 2.0 * r[1], r[2], r[3]) for r in before.rows]
+                else:
+                    want = [(before.rows[0][0], before.rows[0][1], 1.5 * PV, 2.5 * PH)] + list(before.rows[1:])
+                if _rk(obs.rows) != _rk(want):
+                    bad("update-wrong", f"after the in-place update the frame holds {[r[1:] for r in obs.rows]}, expected "
+                        f"{[r[1:] for r in want]}")
+                acc = bin_rows([r[1:] for r in want])
 
         if name != "read" and not viols:
             fcls = rows_class([r[1:] for r in obs.rows])
